@@ -46,6 +46,35 @@ MISTAKES_RE = re.compile(r"&amp(?:%3B|;)", re.I)
 PROTO_RE = re.compile(r"^[a-zA-Z]{0,64}:?//")
 
 
+# ural's documented irrelevant-item tables, written down independently (a deleted item must be one of these; ural's own
+# should_strip_query_item is NOT the oracle, so a slip in its tables, its memoisation or its option handling is visible)
+DOC_KEY_RE = re.compile(r"^(?:__twitter_impression|_guc_consent_skip|guccounter|fb_action_types|(?:php|asp|j)?sessionid|fb_action_ids|fb_source|echobox|feature|recruiter|_unique_id|twclid|mibextid|"
+                        r"campaignid|adgroupid|cn-reloaded|ao_noptimize|mkt_tok|fbclid|igshid|refid|gclid|mc_cid|mc_eid|__tn__|_ft_|dclid|wpamp|fref|usqp|ncid|mtm_.+|utm_.+|s?een|cftoken|cfid|sid|"
+                        r"xt(?:loc|ref|cr|np|or|s)|at_.+|_ga)$", re.I)
+DOC_AMP_KEY_RE = re.compile(r"^(?:amp_.+|amp)$", re.I)
+DOC_COMBOS = {"marfeeltn": {"amp"}, "mode": {"amp"}, "output": {"amp"}, "platform": {"hootsuite"}, "fromref": {"twitter"}, "m": {"0", "1"}, "source": {"twitter"}, "sns": {"tw"},
+              "spref": {"fb", "ts", "tw", "tw_i", "twitter"}, "_ss": {"r"},
+              "ref": {"bookmark", "bookmarks", "distributor_share", "fb", "fb_i", "m_notif", "nf", "notif", "shortener", "ts", "tw", "tw_i", "twhr", "twhs", "twitter", "viral", "feed", "twtrec"}}
+DOC_AMP_COMBOS = {"outputtype": {"amp"}}
+DOC_PER_DOMAIN = {"facebook.com": {"_rdc", "_rdr"}, "youtube.com": {"t", "si", "cbrd", "ucbcb", "ab_channel"}}
+
+
+def doc_irrelevant(key, value, host, normalize_amp):
+    k = key.lower()
+    if DOC_KEY_RE.match(k) or (normalize_amp and DOC_AMP_KEY_RE.match(k)):
+        return True
+    if k in DOC_COMBOS:
+        return value in DOC_COMBOS[k]
+    if k == "s":
+        return bool(value) and len(value) <= 2 and value.isdigit() and value.isascii()
+    if normalize_amp and k in DOC_AMP_COMBOS:
+        return value in DOC_AMP_COMBOS[k]
+    for dom, keys in DOC_PER_DOMAIN.items():
+        if host.endswith(dom) and k in keys:
+            return True
+    return False
+
+
 def all_vectors():
     for bits in itertools.product((True, False), repeat=len(SWITCHES)):
         for fv in FRAG_VALUES:
@@ -164,6 +193,8 @@ def judge(ctx, fn, infer, strip_item, u, opts, extra=None, count=True):
     except Exception as e:
         ctx.viol("C05:raises:" + ctx.exc("normalize_url", e), wit)
         return None, None
+    if isinstance(out, str):
+        ctx.remember("ural.normalize_url:normalize_url", [u], kw, out, cap=5000)
     try:
         rin, had_protocol = read_input(u, opts, infer)
     except Unparseable:
@@ -282,17 +313,11 @@ def judge(ctx, fn, infer, strip_item, u, opts, extra=None, count=True):
                 if k.lower() in RELEVANT_KEYS and not (k.lower() == b"m" or k.lower() == b"s"):
                     flag("query:relevant-item-deleted", k)
                     continue
-                try:
-                    ks, vs = k.decode("utf-8", "replace"), (v.decode("utf-8", "replace") if v is not None else None)
-                    irrelevant = strip_item((ks, vs), normalize_amp=opts["normalize_amp"])
-                    if not irrelevant and rin["host"].endswith("facebook.com"):
-                        irrelevant = ks.lower() in ("_rdc", "_rdr")
-                    if not irrelevant and rin["host"].endswith("youtube.com"):
-                        irrelevant = ks.lower() in ("t", "si", "cbrd", "ucbcb", "ab_channel")
-                except Exception:
-                    irrelevant = True
-                if not irrelevant:
-                    flag("query:item-deleted-that-is-not-irrelevant", (k, v))
+                ks, vs = k.decode("utf-8", "replace"), (v.decode("utf-8", "replace") if v is not None else None)
+                if not doc_irrelevant(ks, vs, rin["host"], opts["normalize_amp"]):
+                    kind = "amp-item-with-normalize_amp-off" if doc_irrelevant(ks, vs, rin["host"], True) else ("combo-key-other-value" if ks.lower() in DOC_COMBOS or ks.lower() in DOC_AMP_COMBOS or ks.lower() == "s" else
+                                                                                                      ("per-domain-item-on-another-host" if any(ks.lower() in v2 for v2 in DOC_PER_DOMAIN.values()) else "other"))
+                    flag("query:item-deleted-that-is-not-documented-irrelevant:" + kind, (k, v))
     # userinfo (all hosts)
     if opts["strip_authentication"]:
         if rout["user"] is not None or rout["password"] is not None:
@@ -384,6 +409,9 @@ DIRECTED = [
     "http://example.com/?", "http://example.com/#", "http://user@example.com", "http://[::1]:8080/a/", "http://192.168.0.1/index.html", "http://localhost/a/?utm_source=1",
     "http://www.www.example.com/", "http://mobile.example.com/mobile./x",
     "http://example.com/x?sidney=1&fbclidx=2&gclidx=3&utm=4&xtorx=5&ampx=6&_gax=7&usqpx=8&seenx=9&cfidx=a&refidx=b&xsid=c&myfbclid=d&xutm_source=e&preamp=f&notref=twitter&sid=1&fbclid=2",
+    "http://example.com/x?source=twit&platform=suite&mode=&output=am&fromref=twitt&sns=t&_ss=&marfeeltn=mp&platform&mode&ref=twitterx&ref=&ref&s=123&s=ab&s=&s&m=2&m=&spref=x&outputtype=am&outputType=amp",
+    "http://example.com/x?si=abc&t=42&ab_channel=z&_rdr=1&_rdc=2&cbrd=1&ucbcb=1", "http://notyoutube.com.example.org/watch?v=aBcDeFgHiJk&t=42&si=x", "https://www.youtube.com/results?search_query=cats&t=42&si=x&hl=fr",
+    "https://www.facebook.com/x/y?_rdr=1&t=42", "http://example.com/x?amp&amp_js_v=0.1&amp=1&AMP_x=2&usqp=mq&id=1",
     "http://example.com/a/index.tar.gz", "http://example.com/a/default.min.js", "http://example.com/a/index.foo.bar/", "http://example.com/a/.index", "http://example.com/a/index.", "http://example.com/?id=&id&ID=1&Id=2", "http://example.com/?q=a+b&q=a%20b&%71=c",
 ]
 UNPARSEABLE = ["", " ", "http://", "/rel", "?q", "#f", "http://a.com:abc/", "http://a.com:99999/", "http://[::1", "]", "https://ohioamf.org]", "http://[x]/", "a.com:port", "\x00", "http:///x", "://",
